@@ -223,7 +223,7 @@ def check_case(rec, case):
 
 def gen_cases(rec, rng, tier):
     thorough = tier == 'thorough'
-    for _ in range(300 if thorough else 90):
+    for _ in range(1200 if thorough else 90):
         R = txg.dfa(rng)
         yield {'kind': 'dfa', 'cls': 'random_dfa', 'ref': R, 'lseed': rng.randrange(10 ** 9)}
         R, eps = txg.nfa(rng)
